@@ -365,7 +365,9 @@ def doOp (s : St) : Op → St
     else emit s .refused
   | .peer _ _ => s
   | .pinit fd =>
-    if fdTaken s fd then emit s .refused else
+    -- a registered watcher makes uv_poll_init itself answer UV_EEXIST (poll.c:70); the user-side
+    -- discipline only forbids a second handle where libuv would accept one
+    if fdTaken s fd && !fdExists s fd then emit s .refused else
     match pollInit s fd with
     | (s, _, some id) => emit s (.newId id)
     | (s, r, .none) => if s.aborted then s else emit s (.ret r)
